@@ -24,6 +24,13 @@ def model_check(ctx):
     names = QUICK_MC if ctx.quick else ALL_MC
     def go(n):
         return n, tlc.run("MCMtDecoder", cfg="MCMtDecoder_%s.cfg" % n, workers=4, timeout=1500, xmx="10g")
+    if not ctx.quick:
+        # beyond the exhaustive constants: random behaviours with 3 workers, 4 Blocks, time-outs and spurious wake-ups
+        rs = tlc.run("MCMtDecoder", cfg="MCMtDecoder_sim3.cfg", workers=6, timeout=900, xmx="8g", simulate=25000, depth=250, seed=ctx.seed)
+        ctx.add_tlc("MCMtDecoder_sim3(simulate)", rs, exhaustive=False)
+        ctx.log("MC", "sim3", rs.summary())
+        if rs.violation:
+            ctx.violation("model:sim3:%s" % rs.violation, "TLC -simulate: %s\n%s" % (rs.violation, rs.out[-3000:]), dict(kind="tlc", cfg="sim3"))
     with cf.ThreadPoolExecutor(4) as ex:
         for n, r in ex.map(go, names):
             ctx.add_tlc("MCMtDecoder_" + n, r, exhaustive=True)
